@@ -5,6 +5,7 @@ cd /repo && env -u BEC2FORMAT_VERIF /venv/bin/python -m pytest -ra -q -p no:cach
 # the hypothesis example database under /repo/.hypothesis must not keep examples from this run (a saved failing example
 # of a randomised test would be replayed for ever): remove what this run added
 find /repo/.hypothesis/examples -type f -newer /verif/properties.jsonl -delete 2>/dev/null; find /repo/.hypothesis/examples -type d -empty -delete 2>/dev/null
+[ -z "$(git -C /repo ls-files t)" ] && rm -rf /repo/t      # scratch directory of the suite's OpenSSL tests
 /venv/bin/python - "$out" <<'P'
 import sys, json, xml.etree.ElementTree as ET
 b = json.load(open('/root/.vp/BASELINE.json'))
